@@ -16,6 +16,46 @@ CHECKS = {
    "DESIGN.md §3 C09"),
 }
 
+SVM = "Trusted base: svm-lite (native loader/CPI/sysvar emulation, DESIGN §2.1) and the shims; the token programs are the real SPL processors. Bounded: alphabets, roots and the completed depth are listed in the evidence file; a capped depth is reported as such."
+CHECKS.update({
+ "C01": (A, "model_checking",
+   "explicit-state search: all op sequences up to a depth bound on the real program; invariant on every state; drains in all orders; swap-only histories in ledger mode",
+   "Every reachable state of every increase/decrease/swap/update/collect sequence up to the completed depth (5 roots, 2-4 worlds, fixed+dynamic arrays) satisfies vault >= protocol fees + position fees (after a real update) + exact withdrawable amounts; closing out all positions and protocol fees succeeds in every order with real token transfers; no swap-only history leaves the trader ahead.",
+   SVM, "DESIGN.md §3 C01"),
+ "C03": (A, "model_checking",
+   "explicit-state search over prefixes; every swap transition judged from real balances; thresholds realised-1/0/+1 re-executed; must-fail limits in every state",
+   "Every swap transition from every state reached within the depth bound honours amount, direction, bound and limit; partial fills end exactly on the limit; exact-out without limit never partially fills; success/failure flips exactly at the realised threshold.",
+   SVM, "DESIGN.md §3 C03"),
+ "C05": (A, "model_checking",
+   "explicit-state search; state invariant with independent decoders of pool, positions, fixed and dynamic tick arrays",
+   "In every reachable state within the depth bound pool.liquidity equals the sum over covering positions and every tick's net/gross/initialized equal the sums over bounding positions, in both encodings, incl. shared bounds, full range, landing on ticks, reaching price bounds.",
+   SVM, "DESIGN.md §3 C05"),
+ "C06": (A, "model_checking",
+   "explicit-state search; per-swap-step oracle from the H2 trace + totals from real balances/accounts + emitted event",
+   "Every swap transition within the depth bound splits exactly as stated (per-step fee, protocol cut, growth; trader debit/credit; Traded event); every collect_protocol_fees pays exactly what is owed and resets it; fee / protocol rates varied inside the search.",
+   SVM + " Hook H2 is trusted to record the values the swap loop used.", "DESIGN.md §3 C06"),
+ "C08": (B, "exploration",
+   "bounded-exhaustive enumeration of (range, price/tick state, liquidity) incl. complete small box, exact rational oracle; Anchor vs Pinocchio differential",
+   "Function-level: deposit=ceil, withdrawal=floor of the exact amounts, one-sidedness, add-then-remove loss <= 1, estimate is the largest fitting liquidity, Anchor==Pinocchio — over boundary cross products and a complete small box.",
+   "Prices and liquidities are alphabet points plus a complete small box (not all of u128); pub functions are called directly (hook H1).", "DESIGN.md §3 C08"),
+ "C12": (B, "exploration",
+   "bounded-exhaustive differential Pinocchio vs Anchor: usable-tick lookup (complete product), memory-mapped views vs Anchor serialisation, modify-liquidity over a structured state alphabet",
+   "Function-level bit-for-bit agreement of the Pinocchio port with the Anchor reference over complete products of stated alphabets; byte-identical account images after sync.",
+   "State alphabets instead of all byte contents; hook H1 exports the private Pinocchio modules.", "DESIGN.md §3 C12"),
+ "C13": (A, "model_checking",
+   "explicit-state search on the codec: complete transition system over a boundary slot set (3^8 states x all ops) + all op sequences <= depth over all 88 slots, 4 real implementations side by side",
+   "Dynamic (Anchor + Pinocchio) and fixed (Anchor + Pinocchio) arrays driven with the same update sequences: canonical encoding, identical get_tick / next-initialized answers and errors after every op.",
+   "Overlay casts for types without public constructors (same as the program's loaders); bytes beyond the used length unconstrained (not persisted on chain).", "DESIGN.md §3 C13"),
+ "C16": (B, "exploration",
+   "bounded-exhaustive enumeration over all fee bps (thorough) x max-fee x amount alphabets x epoch, exact reference definition; TLV parser vs StateWithExtensions over extension subsets/orders",
+   "Function-level: excluded+fee==amount, included is the least pre-image or an error only when none exists, Anchor==Pinocchio, hand-written TLV parser == spl-token-2022.",
+   "Amounts are alphabet points; mints are built by the real Token-2022 processor.", "DESIGN.md §3 C16"),
+ "C19": (B, "exploration",
+   "complete tables: all 2^17 extension subsets x default-state x freeze x 8 badge states (thorough), all u16 setter arguments, validate_constants cross product; representatives end-to-end through initialize_pool_v2 / initialize_reward_v2",
+   "Admission verdict equals the table for every extension combination and badge state; setters accept exactly in-bound values; validate_constants equals the published rules; end-to-end pool/reward creation succeeds iff admitted.",
+   "Table rows the statement does not name follow the code's allow-list (recorded as assumptions in the evidence).", "DESIGN.md §3 C19"),
+})
+
 NOT_APPLICABLE = {
 }
 PENDING_REASON = "check not built yet (build in progress; see DESIGN.md §8)"
